@@ -82,13 +82,15 @@ Definition ex_skip_g : graph :=
     {| nkind := KMap (fun v => Some v); ups := [0] |};
     {| nkind := KSlice 0 (Some 1) 1; ups := [0; 1] |};
     {| nkind := KSink (fun _ => Some tt); ups := [2] |} ].
+Example C05_ex_skip_is_a_dag : wf_dag ex_skip_g.
+Proof. apply wf_dagb_spec. reflexivity. Qed.
 Example C05_detached_child_skipped_and_balanced :
   let w0 := retain1 (init_world ex_skip_g) 0 1 in            (* the owner's reference *)
   let '(w1, s1) := push 6 ex_skip_g 0 0 w0 (VInt 7%Z) [{| mid := 0; mref := true |}] in
-  wf_dag ex_skip_g /\ s1 = SOk /\ downs ex_skip_g w0 0 = [1; 2] /\ downs ex_skip_g w1 0 = [1] /\
+  s1 = SOk /\ downs ex_skip_g w0 0 = [1; 2] /\ downs ex_skip_g w1 0 = [1] /\
   map (fun e => (e_src e, e_dst e)) (rev (log w1)) = [(0, 1); (1, 2); (2, 3)] /\
   cnt w1 0 = 1%Z /\ fired w1 = [].
-Proof. split; [apply wf_dagb_spec; reflexivity|]. vm_compute. repeat split; reflexivity. Qed.
+Proof. vm_compute. repeat split; reflexivity. Qed.
 
 (* ---- _emit bridges (harness/mkprops_emit.py): begin ---- *)
 (* Stream._emit, Stream._retain_refs and Stream._release_refs are the ones regenerated from the source under test on this
